@@ -569,7 +569,45 @@ def oracle_sweep(inp):
     return res
 
 
-ORACLES = {'grad': oracle_grad, 'sweep': oracle_sweep, 'fft': oracle_fft, 'propagator': oracle_propagator, 'structure': oracle_structure}
+def oracle_sequence(inp):
+    """several objectives on ONE stateful object, each with its own plain backward (no retain_graph): every one must
+    back-propagate without exception, give a finite gradient and the gradient a fresh object gives for it alone"""
+    try:
+        q = S.build_sequence(inp['recipe'], inp['seed'])
+        obj, leaves = q.fresh()
+    except Exception as ex:
+        return [('no_exception', False, 'an object', repr(ex)[:300])]
+    res = []
+    for k, (label, fn, compare) in enumerate(q.objectives):
+        tag = 'objective %d (%s)' % (k + 1, label)
+        try:
+            o2, l2 = q.fresh()
+            ref = torch.autograd.grad(fn(o2, l2), l2, allow_unused=True)
+        except Exception as ex:
+            res.append(('fresh_object_differentiable', False, 'a gradient on a fresh object', {'at': tag, 'error': repr(ex)[:300]})); continue
+        try:
+            val = fn(obj, leaves)
+            g = torch.autograd.grad(val, leaves, allow_unused=True)            # plain backward: the graph is freed
+        except Exception as ex:
+            res.append(('sequence_no_exception', False, 'objective after objective differentiable on one object', {'at': tag, 'error': repr(ex)[:300]})); continue
+        for j, (a, b, cmp_) in enumerate(zip(g, ref, compare)):
+            if not cmp_: continue
+            if a is None or b is None:
+                res.append(('sequence_gradient_path_exists', False, 'a gradient reaches this parameter, on the fresh object and in the sequence', {'at': tag, 'leaf': j, 'fresh': b is not None, 'sequence': a is not None})); continue
+            a, b = a.detach().numpy().astype(float), b.detach().numpy().astype(float)
+            fin = bool(np.all(np.isfinite(a)))
+            if not fin:
+                res.append(('sequence_gradient_finite', False, 'finite', {'at': tag, 'leaf': j})); continue
+            err = rel_err(a, b)
+            res.append(('sequence_gradient_equals_fresh_object', err <= 1e-4, '<= 1e-4', {'at': tag, 'leaf': j, 'rel_err': err}))
+    # report one line per clause (the first failure of each, else the pass)
+    out = {}
+    for r in res:
+        if r[0] not in out or (out[r[0]][1] and not r[1]): out[r[0]] = r
+    return list(out.values())
+
+
+ORACLES = {'grad': oracle_grad, 'sweep': oracle_sweep, 'sequence': oracle_sequence, 'fft': oracle_fft, 'propagator': oracle_propagator, 'structure': oracle_structure}
 FN = {'wave': 'odak.learn.wave', 'ray': 'odak.learn.raytracing', 'refract': 'odak.learn.raytracing.refract', 'mesh': 'odak.learn.raytracing.planar_mesh.mirror',
       'luminous': 'odak.learn.raytracing', 'colour': 'odak.learn.perception', 'loss': 'odak.learn'}
 
@@ -582,6 +620,7 @@ def fn_of(name, inp):
         if inp['group'] == 'refract': return 'odak.learn.raytracing.refract'
         if inp['group'] == 'mesh': return FN['mesh']
         return '%s.%s' % (FN[inp['group']], base)
+    if name == 'sequence': return 'odak.learn:' + inp['recipe']
     if name == 'sweep': return inp['key'].replace('odak/', 'odak.').replace('/', '.').replace('.py:', '.')
     if name == 'fft': return 'odak.learn.wave.propagate_beam'
     if name == 'propagator': return 'odak.learn.wave.propagator.__call__'
@@ -829,6 +868,16 @@ def sweep(ctx, nseeds):
                 inp = {'key': key, 'variant': v, 'seed': ctx.rng.randrange(10 ** 6)}
                 bad, res = apply_oracle(ctx, 'sweep', inp)
                 ctx.case('sweep/%s' % key.split(':')[1], (key, v, inp['seed']), nontrivial=len(res) >= 3)
+    # call sequences on one stateful object
+    cls = S.classes()
+    unknown = [c for c in cls if c not in S.STATEFUL and c not in S.STATELESS]
+    ctx.obligation('sweep:every-class-of-the-anchored-files-has-a-call-sequence-recipe(%d classes, %d sequence recipes)' % (len(cls), len(S.SEQUENCES)),
+                   not unknown and all(r in S.SEQUENCES for rs in S.STATEFUL.values() for r in rs), 'unclassified classes: %s' % unknown)
+    for name in sorted(S.SEQUENCES):
+        for k in range(max(1, nseeds // 2)):
+            inp = {'recipe': name, 'seed': ctx.rng.randrange(10 ** 6)}
+            bad, res = apply_oracle(ctx, 'sequence', inp)
+            ctx.case('sequence/%s' % name, (name, inp['seed']))
 
 
 def search(ctx):
